@@ -368,6 +368,23 @@ def run_spell(case, rec):
                       {"spelling": spelling, "model_dtype": str(model.dtype), "result_dtype": str(np.asarray(I).dtype),
                        "dll": os.path.basename(model.dllpath)})
             rec.set_shape(("spelling", spelling), True)
+    # the same table for models flagged double-only and when a GPU platform was asked for but none exists:
+    # the request decides, not the flag or the fallback
+    for mname in ("hardsphere", "fcc_paracrystal", "sphere"):
+        mi = sas.info(mname)
+        for platform_req in ("ocl", "dll"):
+            for sp, size in (("single", 4), ("single!", 4), ("float32", 4), ("double", 8), ("quad", 16), (None, 8)):
+                dt, fast, platform = sascore.parse_dtype(mi, sp, platform_req)
+                okp = np.dtype(dt).itemsize == size
+                model = sascore.build_model(mi, dtype=sp, platform=platform_req)
+                I = direct_model.call_kernel(model.make_kernel([q]), {})
+                okb = np.dtype(model.dtype).itemsize == size and np.asarray(I).dtype.itemsize == size
+                rec.check("spelling_selects_type", okp and okb,
+                          {"model": mname, "model_flagged_single": bool(mi.single), "spelling": sp, "platform_requested": platform_req,
+                           "parse_dtype": str(dt), "model_dtype": str(model.dtype), "result_dtype": str(np.asarray(I).dtype),
+                           "expected_bytes": size})
+        rec.bucket("d:double-only-model" if not mi.single else "d:single-capable-model")
+    rec.bucket("d:gpu-platform-falls-back")
     # half precision is refused
     for spelling in ("half", "half!", "float16"):
         try:
